@@ -23,19 +23,20 @@ Proof. intros comp Req K get hash ks Hh. exact (key_injective_on_components comp
 Print Assumptions C48_key_injective_on_components.
 
 (* ALL histories: if the key components include the output-affecting inputs, every request - hit,
-   miss or bypass - yields exactly what a fresh compilation of that request yields *)
+   miss or bypass - yields exactly what a fresh compilation of that request yields (failed
+   compilations, [ok o = false], are returned but not stored) *)
 Theorem C48_cache_hit_is_fresh :
   forall (comp Req K Out : Type) (get : Req -> comp -> value) (hash : list N -> K)
-         (keqb : K -> K -> bool) (compile : Req -> Out) (bypass : Req -> bool) (ks aff : list comp),
+         (keqb : K -> K -> bool) (compile : Req -> Out) (ok : Out -> bool) (bypass : Req -> bool) (ks aff : list comp),
   (forall a b, hash a = hash b -> a = b) ->
   (forall a b, keqb a b = true <-> a = b) ->
   (forall r1 r2, (forall c, In c aff -> get r1 c = get r2 c) -> compile r1 = compile r2) ->
   incl aff ks ->
   forall h : list Req,
-    map snd (run comp Req get K hash keqb Out compile bypass ks h) = map compile h.
+    map snd (run comp Req get K hash keqb Out compile ok bypass ks h) = map compile h.
 Proof.
-  intros comp Req K Out get hash keqb compile bypass ks aff Hh Hk Hd Hi h.
-  exact (cache_hit_is_fresh comp Req K Out get hash keqb compile bypass ks aff Hh Hk Hd h Hi).
+  intros comp Req K Out get hash keqb compile ok bypass ks aff Hh Hk Hd Hi h.
+  exact (cache_hit_is_fresh comp Req K Out get hash keqb compile ok bypass ks aff Hh Hk Hd h Hi).
 Qed.
 Print Assumptions C48_cache_hit_is_fresh.
 
@@ -43,16 +44,16 @@ Print Assumptions C48_cache_hit_is_fresh.
    not answered from the cache ("any change ... causes a cache miss") *)
 Theorem C48_change_causes_miss :
   forall (comp Req K Out : Type) (get : Req -> comp -> value) (hash : list N -> K)
-         (keqb : K -> K -> bool) (compile : Req -> Out) (bypass : Req -> bool) (ks : list comp),
+         (keqb : K -> K -> bool) (compile : Req -> Out) (ok : Out -> bool) (bypass : Req -> bool) (ks : list comp),
   (forall a b, hash a = hash b -> a = b) ->
   (forall a b, keqb a b = true <-> a = b) ->
   forall (h : list Req) (r : Req),
     (forall r', In r' h -> exists c, In c ks /\ get r c <> get r' c) ->
-    fst (snd (step comp Req get K hash keqb Out compile bypass ks
-                (fst (exec comp Req get K hash keqb Out compile bypass ks [] h)) r)) <> Hit.
+    fst (snd (step comp Req get K hash keqb Out compile ok bypass ks
+                (fst (exec comp Req get K hash keqb Out compile ok bypass ks [] h)) r)) <> Hit.
 Proof.
-  intros comp Req K Out get hash keqb compile bypass ks Hh Hk h r.
-  exact (change_causes_miss comp Req K Out get hash keqb compile bypass ks Hh Hk h r).
+  intros comp Req K Out get hash keqb compile ok bypass ks Hh Hk h r.
+  exact (change_causes_miss comp Req K Out get hash keqb compile ok bypass ks Hh Hk h r).
 Qed.
 Print Assumptions C48_change_causes_miss.
 
@@ -91,12 +92,12 @@ Print Assumptions C48_key_without_directives_refuted.
 (* the cache theorem for the key components of the (repaired) tables: cythonize()/compile() ... *)
 Theorem C48_cythonize_cache_never_stale :
   forall (Req K Out : Type) (get : Req -> string -> value) (hash : list N -> K)
-         (keqb : K -> K -> bool) (compile : Req -> Out) (bypass : Req -> bool),
+         (keqb : K -> K -> bool) (compile : Req -> Out) (ok : Out -> bool) (bypass : Req -> bool),
   (forall a b, hash a = hash b -> a = b) ->
   (forall a b, keqb a b = true <-> a = b) ->
   (forall r1 r2, (forall c, In c (required_of required_cythonize (effective cythonize_table)) ->
                             get r1 c = get r2 c) -> compile r1 = compile r2) ->
-  forall h, map snd (run string Req get K hash keqb Out compile bypass
+  forall h, map snd (run string Req get K hash keqb Out compile ok bypass
                         (key_of (effective cythonize_table)) h) = map compile h.
 Proof. exact cythonize_never_stale. Qed.
 Print Assumptions C48_cythonize_cache_never_stale.
@@ -104,12 +105,12 @@ Print Assumptions C48_cythonize_cache_never_stale.
 (* ... and cython_inline's module cache *)
 Theorem C48_inline_cache_never_stale :
   forall (Req K Out : Type) (get : Req -> string -> value) (hash : list N -> K)
-         (keqb : K -> K -> bool) (compile : Req -> Out) (bypass : Req -> bool),
+         (keqb : K -> K -> bool) (compile : Req -> Out) (ok : Out -> bool) (bypass : Req -> bool),
   (forall a b, hash a = hash b -> a = b) ->
   (forall a b, keqb a b = true <-> a = b) ->
   (forall r1 r2, (forall c, In c (required_of required_inline (effective inline_table)) ->
                             get r1 c = get r2 c) -> compile r1 = compile r2) ->
-  forall h, map snd (run string Req get K hash keqb Out compile bypass
+  forall h, map snd (run string Req get K hash keqb Out compile ok bypass
                         (key_of (effective inline_table)) h) = map compile h.
 Proof. exact inline_never_stale. Qed.
 Print Assumptions C48_inline_cache_never_stale.
@@ -118,7 +119,7 @@ Print Assumptions C48_inline_cache_never_stale.
    output-affecting inputs, a three-request history hits on the repeated request and returns the
    fresh results; the same history with a key that omits input 1 returns a stale result *)
 Example C48_nonvacuous :
-  let h := [(false, [1; 1]); (false, [1; 2]); (false, [1; 1])]%N in
+  let h := [((false, false), [1; 1]); ((false, false), [1; 2]); ((false, false), [1; 1])]%N in
   run_concrete [0; 1]%N [0; 1]%N h = [(Miss, false); (Miss, false); (Hit, false)] /\
   run_concrete [0]%N [0; 1]%N h = [(Miss, false); (Hit, true); (Hit, false)] /\
   incl (required_of required_cythonize (effective cythonize_table)) (key_of (effective cythonize_table)) /\
